@@ -190,7 +190,7 @@ def independent_analytic_set(task):
     for nm, order, _ in entries:
         names += [nm + marker * k for k in range(order)]
     syms = {nm: sympy.Symbol(nm) for nm in names}
-    tsym = sympy.Symbol("t")
+    tsym = sympy.Symbol((task["indict"].get("options") or {}).get("input_time_symbol", "t"))
     n = len(names)
     f = {}
     for nm, order, rhs in entries:
